@@ -25,7 +25,6 @@ RULE = ('configurations: overwrite x overwrite_part x rm_part_on_exc x text_mode
         'rm_part_on_exc (a foreign pre-existing part file untouched unless overwrite_part), an immediate fault-free retry succeeds; completed '
         '=> new content, requested / replaced file\'s / umask-default permissions, no part file. non-trivial = runs where a fault or a '
         'refusal actually triggered. distinct = distinct (configuration, fault plan) pairs.')
-RULE += " Round 6: body kind race_late - the competing writer's file appears straight before the call that moves the part file into place (after every check the saver makes on its way out); overwrite=False must refuse, leave the competitor's file and remove the part file."
 ASSUMPTIONS = [
     'faults replace the call (nothing is performed), except close which closes and then raises; partial effects inside the kernel are out of reach',
     'the process runs as root: permission bits are compared, not enforced',
